@@ -5,7 +5,10 @@ Part 1 (planning): for all `a ≤ b` the requests of `NewAscendingBlockRequests 
 consecutive, ascending, each of 1..128 blocks, and together cover `[a, b]` exactly once.
 Part 2 (serving): a successful response of `CreateBlockResponse` starts at the requested block,
 is parent-linked in the requested direction, is no longer than min(requested max, 128) and every
-block carries exactly the requested fields (that exist for it).
+block carries exactly the requested fields (that exist for it) — over block states with forks and
+after a finalisation that moved a prefix of the chain to the database and pruned forks.
+Part 3 (limiter): a call is refused iff the same request was already served
+`maxNumberOfSameRequestPerPeer` times to that peer within the LRU window of 100 keys.
 -/
 import Gossamer.Model.C31
 namespace Gossamer.C31
@@ -1126,6 +1129,9 @@ example : (serve prunedTree ⟨.hash 1, 0, none, 1⟩).toOption
     = some [⟨1, 1⟩, ⟨2, 1⟩, ⟨3, 1⟩, ⟨4, 1⟩] := by decide +kernel
 example : (serve prunedTree ⟨.num 4, 1, some 3, 3⟩).toOption = some [⟨4, 3⟩, ⟨3, 3⟩, ⟨2, 3⟩] := by
   decide
+-- block 3 finalised: its body is missing from the database and is served as absent, no error
+example : (serve (finalise exampleTree 3) ⟨.num 4, 1, some 3, 3⟩).toOption
+    = some [⟨4, 3⟩, ⟨3, 1⟩, ⟨2, 3⟩] := by decide
 
 -- non-trivial responses that the theorem speaks about
 example : (serve exampleTree ⟨.num 2, 0, some 2, 19⟩).toOption = some [⟨2, 3⟩, ⟨3, 19⟩] := by decide
@@ -1147,5 +1153,338 @@ theorem C31_serve_chain_counterexample :
 /-- descending from number 0 is answered with no block at all (genesis is never served by number) -/
 theorem C31_serve_genesis_desc_counterexample :
     (serve exampleTree ⟨.num 0, 1, none, 1⟩).toOption = some [] := by decide
+
+/-! ## Part 3: the same-request limiter -/
+
+/-- what one non-empty-mask call does to the seen-requests cache -/
+def stepK (c : Cache) (k : ReqKey) : Cache :=
+  if (lruGet c k).1 ≥ maxSame then (lruGet c k).2
+  else lruPut seenCap (lruGet c k).2 k ((lruGet c k).1 + 1)
+
+theorem request_cache (t : Tree) (c : Cache) (p : Nat) (r : Request) :
+    (request t c p r).1 = if r.mask = 0 then c else stepK c (reqKey p r) := by
+  unfold request stepK
+  split
+  · rfl
+  · simp only
+    split <;> rfl
+
+/-- **The refusal rule**: a call is refused exactly when the cache holds a count of at least
+    `maxNumberOfSameRequestPerPeer` for (peer, request); a request for no data is never counted. -/
+theorem request_refused_iff (t : Tree) (c : Cache) (p : Nat) (r : Request) :
+    (∃ c', request t c p r = (c', .refused)) ↔
+      r.mask ≠ 0 ∧ maxSame ≤ (lruGet c (reqKey p r)).1 := by
+  unfold request
+  split
+  · rename_i h0
+    simp [h0]
+  · rename_i h0
+    simp only
+    split
+    · rename_i hge
+      simp [h0, hge]
+    · rename_i hge
+      simp [h0]
+      omega
+
+/-! ### the cache as a function of the history of keys (newest first) -/
+
+/-- distinct keys of the history, most recently used first -/
+def recency : List ReqKey → List ReqKey
+  | [] => []
+  | k :: older => k :: (recency older).filter (· ≠ k)
+
+/-- the LRU window: the `seenCap` most recently used distinct keys -/
+def window (hist : List ReqKey) : List ReqKey := (recency hist).take seenCap
+
+/-- how often `k` was served (not refused) since it last entered the window -/
+def servedCount : List ReqKey → ReqKey → Nat
+  | [], _ => 0
+  | k' :: older, k =>
+    if k' = k then
+      (if servedCount older k ≥ maxSame then servedCount older k else servedCount older k + 1)
+    else if k ∈ window (k' :: older) then servedCount older k else 0
+
+/-- the cache after the calls with these keys -/
+def cacheOf : List ReqKey → Cache
+  | [] => []
+  | k :: older => stepK (cacheOf older) k
+
+theorem recency_nodup : ∀ hist, (recency hist).Nodup
+  | [] => List.nodup_nil
+  | k :: older => by
+    simp only [recency, List.nodup_cons]
+    exact ⟨by simp, (recency_nodup older).filter _⟩
+
+theorem servedCount_le : ∀ hist k, servedCount hist k ≤ maxSame
+  | [], _ => by simp [servedCount]
+  | k' :: older, k => by
+    have := servedCount_le older k
+    simp only [servedCount]
+    split
+    · split <;> omega
+    · split <;> omega
+
+theorem servedCount_out {hist : List ReqKey} {k : ReqKey} (h : k ∉ window hist) :
+    servedCount hist k = 0 := by
+  cases hist with
+  | nil => rfl
+  | cons k' older =>
+    simp only [servedCount]
+    split
+    · rename_i heq
+      subst heq
+      exfalso
+      apply h
+      simp [window, recency, seenCap]
+    · simp [h]
+
+/-- removing one element that occurs in the first `n+1` places of a duplicate-free list and
+    then keeping `n` places is the same as removing it everywhere and keeping `n` places -/
+theorem take_filter_ne (k : ReqKey) : ∀ (l : List ReqKey) (n : Nat), l.Nodup →
+    ((l.take (n + 1)).filter (· ≠ k)).take n = (l.filter (· ≠ k)).take n
+  | [], _, _ => by simp
+  | x :: l, n, hnd => by
+    have hnd' := (List.nodup_cons.mp hnd)
+    by_cases hx : x = k
+    · subst hx
+      have hnot : ∀ y ∈ l, y ≠ x := fun y hy h => hnd'.1 (h ▸ hy)
+      have h1 : l.filter (· ≠ x) = l := List.filter_eq_self.mpr (by simpa using hnot)
+      have h2 : (l.take n).filter (· ≠ x) = l.take n :=
+        List.filter_eq_self.mpr (by
+          intro y hy
+          simpa using hnot y (List.mem_of_mem_take hy))
+      simp only [ne_eq, decide_not] at h1 h2
+      simp [List.take_succ_cons, h1, h2, List.take_take]
+    · cases n with
+      | zero => simp
+      | succ m =>
+        have ih := take_filter_ne k l m hnd'.2
+        simp only [List.take_succ_cons, List.filter_cons, hx, ne_eq, not_false_eq_true,
+          decide_true, ite_true]
+        rw [ih]
+
+theorem find_map_pair (S : ReqKey → Nat) (k : ReqKey) : ∀ (l : List ReqKey),
+    (l.map (fun x => (x, S x))).find? (fun e => e.1 = k) = if k ∈ l then some (k, S k) else none
+  | [] => by simp
+  | x :: l => by
+    simp only [List.map_cons, List.find?_cons]
+    by_cases hx : x = k
+    · subst hx; simp
+    · have ih := find_map_pair S k l
+      simp only [hx, decide_false, List.mem_cons]
+      rw [ih]
+      have : ¬ k = x := fun h => hx h.symm
+      simp [this]
+
+theorem filter_map_pair (S : ReqKey → Nat) (k : ReqKey) (l : List ReqKey) :
+    (l.map (fun x => (x, S x))).filter (fun e => e.1 ≠ k)
+      = (l.filter (· ≠ k)).map (fun x => (x, S x)) := by
+  rw [List.filter_map]
+  rfl
+
+theorem map_congr_mem {l : List ReqKey} {f g : ReqKey → ReqKey × Nat} (h : ∀ x ∈ l, f x = g x) :
+    l.map f = l.map g := List.map_congr_left h
+
+theorem window_cons (k : ReqKey) (older : List ReqKey) :
+    window (k :: older) = k :: ((recency older).filter (· ≠ k)).take 99 := by
+  simp [window, recency, seenCap, List.take_succ_cons]
+
+theorem servedCount_other {k' k : ReqKey} {older : List ReqKey} (hne : k' ≠ k)
+    (hin : k ∈ window (k' :: older)) : servedCount (k' :: older) k = servedCount older k := by
+  simp [servedCount, hne, hin]
+
+/-- **The cache is a function of the history**: its keys are the LRU window (the 100 most
+    recently used distinct (peer, request) keys, most recent first) and every key carries the
+    number of times it was served since it last entered the window. -/
+theorem cacheOf_eq : ∀ hist, cacheOf hist = (window hist).map (fun k => (k, servedCount hist k))
+  | [] => rfl
+  | k :: older => by
+    have ih := cacheOf_eq older
+    have hnd := recency_nodup older
+    have hG := take_filter_ne k (recency older) 99 hnd
+    simp only [cacheOf]
+    rw [ih, window_cons]
+    -- the part of the new window behind `k`
+    have htail : ∀ x ∈ ((recency older).filter (· ≠ k)).take 99,
+        (fun y => (y, servedCount older y)) x = (fun y => (y, servedCount (k :: older) y)) x := by
+      intro x hx
+      have hxk : x ≠ k := by
+        have := List.mem_of_mem_take hx
+        simpa using (List.mem_filter.mp this).2
+      have hin : x ∈ window (k :: older) := by
+        rw [window_cons]
+        exact List.mem_cons_of_mem _ hx
+      simp only
+      rw [servedCount_other (fun h => hxk h.symm) hin]
+    have htl := List.map_congr_left htail
+    simp only [List.map_cons]
+    by_cases hin : k ∈ window older
+    · -- a hit: the entry moves to the front
+      have hfind : (lruGet ((window older).map (fun x => (x, servedCount older x))) k)
+          = (servedCount older k,
+              (k, servedCount older k) :: (((window older).filter (· ≠ k)).map
+                (fun x => (x, servedCount older x)))) := by
+        simp only [lruGet, find_map_pair, hin, ite_true, filter_map_pair]
+      have hlen : ((window older).filter (· ≠ k)).length ≤ 99 := by
+        have h1 : ((window older).filter (· ≠ k)).length < (window older).length := by
+          apply List.length_filter_lt_length_iff_exists.mpr
+          exact ⟨k, hin, by simp⟩
+        have h2 : (window older).length ≤ 100 := by
+          simp only [window, seenCap, List.length_take]
+          omega
+        omega
+      have hW : (window older).filter (· ≠ k) = ((recency older).filter (· ≠ k)).take 99 := by
+        rw [← hG]
+        exact (List.take_of_length_le hlen).symm
+      simp only [stepK, hfind]
+      by_cases hge : servedCount older k ≥ maxSame
+      · simp only [hge, ite_true, hW, htl]
+        congr 2
+        simp [servedCount, hge]
+      · simp only [hge, ite_false, lruPut, List.any_cons, decide_true, Bool.true_or, ite_true,
+          List.filter_cons, ne_eq, not_true_eq_false, decide_false, hW, htl]
+        have hff : List.filter (fun e => e.1 ≠ k) ((((recency older).filter (· ≠ k)).take 99).map
+              (fun y => (y, servedCount (k :: older) y)))
+            = (((recency older).filter (· ≠ k)).take 99).map
+              (fun y => (y, servedCount (k :: older) y)) := by
+          apply List.filter_eq_self.mpr
+          intro e he
+          obtain ⟨x, hx, rfl⟩ := List.mem_map.mp he
+          have := List.mem_of_mem_take hx
+          simpa using (List.mem_filter.mp this).2
+        simp only [ne_eq, decide_not] at hff ⊢
+        simp only [Bool.false_eq_true, ite_false, hff]
+        congr 2
+        simp [servedCount, hge]
+    · -- a miss: a new entry, the least recently used one is dropped when the cache is full
+      have hfind : (lruGet ((window older).map (fun x => (x, servedCount older x))) k)
+          = (0, (window older).map (fun x => (x, servedCount older x))) := by
+        simp only [lruGet, find_map_pair, hin, ite_false]
+      have hany : ((window older).map (fun x => (x, servedCount older x))).any
+          (fun e => e.1 = k) = false := by
+        simp only [List.any_map, List.any_eq_false]
+        intro x hx
+        simp only [Function.comp, decide_eq_true_eq]
+        intro hxk
+        exact hin (hxk ▸ hx)
+      have hself : (window older).filter (· ≠ k) = window older := by
+        apply List.filter_eq_self.mpr
+        intro x hx
+        simpa using (fun h : x = k => hin (h ▸ hx))
+      have hW : ((recency older).filter (· ≠ k)).take 99 = (recency older).take 99 := by
+        rw [← hG]
+        have : ((recency older).take (99 + 1)).filter (· ≠ k) = (recency older).take 100 := hself
+        rw [this, List.take_take]
+        simp
+      have hdrop : (if ((window older).map (fun x => (x, servedCount older x))).length ≥ seenCap
+            then ((window older).map (fun x => (x, servedCount older x))).dropLast
+            else (window older).map (fun x => (x, servedCount older x)))
+          = ((recency older).take 99).map (fun x => (x, servedCount older x)) := by
+        simp only [List.length_map, window, seenCap, List.length_take]
+        split
+        · rename_i hl
+          rw [← List.map_dropLast, List.dropLast_eq_take, List.length_take, List.take_take]
+          have : min (min 100 (recency older).length - 1) 100 = 99 := by omega
+          rw [this]
+        · rename_i hl
+          have hle : (recency older).length ≤ 99 := by omega
+          rw [List.take_of_length_le (by omega), List.take_of_length_le hle]
+      have h0 := servedCount_out hin
+      simp only [stepK, hfind, maxSame, show ¬ (0 ≥ 2) by omega, ite_false, lruPut, hany,
+        Bool.false_eq_true]
+      rw [hdrop, ← hW, htl]
+      congr 2
+      simp [servedCount, h0, maxSame]
+
+/-! ### histories of calls -/
+
+/-- the seen-requests cache of a service that handled the calls `ops` (oldest first) -/
+def cacheAfter (t : Tree) (ops : List (Nat × Request)) : Cache :=
+  ops.foldl (fun c o => (request t c o.1 o.2).1) []
+
+/-- the keys of the calls that reach the limiter (non-empty field mask), newest first -/
+def keysOf (ops : List (Nat × Request)) : List ReqKey :=
+  ops.foldl (fun ks o => if o.2.mask = 0 then ks else reqKey o.1 o.2 :: ks) []
+
+theorem cacheAfter_eq (t : Tree) (ops : List (Nat × Request)) :
+    cacheAfter t ops = cacheOf (keysOf ops) := by
+  suffices h : ∀ (ops : List (Nat × Request)) (c : Cache) (ks : List ReqKey), c = cacheOf ks →
+      ops.foldl (fun c o => (request t c o.1 o.2).1) c
+        = cacheOf (ops.foldl (fun ks o => if o.2.mask = 0 then ks else reqKey o.1 o.2 :: ks) ks) by
+    exact h ops [] [] rfl
+  intro ops
+  induction ops with
+  | nil => intro c ks h; simpa using h
+  | cons o rest ih =>
+    intro c ks h
+    simp only [List.foldl_cons]
+    apply ih
+    rw [request_cache]
+    split
+    · exact h
+    · rw [h]; rfl
+
+theorem lruGet_cacheOf (hist : List ReqKey) (k : ReqKey) :
+    (lruGet (cacheOf hist) k).1 = servedCount hist k := by
+  rw [cacheOf_eq]
+  simp only [lruGet, find_map_pair]
+  by_cases hin : k ∈ window hist
+  · simp only [hin, ite_true]
+  · simp only [hin, ite_false]
+    exact (servedCount_out hin).symm
+
+/-- **The limiter** (all histories): after any sequence of calls to one service, a call by
+    `peer` with request `r` is refused (`errMaxNumberOfSameRequest`, the peer is reported) if and
+    only if it asks for some data and that very request was already served
+    `maxNumberOfSameRequestPerPeer` times to that peer since the (peer, request) key last entered
+    the LRU window of the 100 most recently used keys. -/
+theorem C31_limiter_refused_iff (t : Tree) (ops : List (Nat × Request)) (peer : Nat) (r : Request) :
+    (∃ c', request t (cacheAfter t ops) peer r = (c', .refused)) ↔
+      r.mask ≠ 0 ∧ servedCount (keysOf ops) (reqKey peer r) = maxSame := by
+  rw [request_refused_iff, cacheAfter_eq, lruGet_cacheOf]
+  have := servedCount_le (keysOf ops) (reqKey peer r)
+  constructor
+  · rintro ⟨h1, h2⟩; exact ⟨h1, by omega⟩
+  · rintro ⟨h1, h2⟩; exact ⟨h1, by omega⟩
+
+/-- the keys the service remembers are exactly the LRU window of the history -/
+theorem C31_limiter_window (t : Tree) (ops : List (Nat × Request)) :
+    (cacheAfter t ops).map (·.1) = window (keysOf ops) := by
+  rw [cacheAfter_eq, cacheOf_eq]
+  simp [List.map_map, Function.comp_def]
+
+/-- the same request again and again: served `maxNumberOfSameRequestPerPeer` times, then refused -/
+theorem C31_limiter_repeat (k : ReqKey) : ∀ j, servedCount (List.replicate j k) k = min j maxSame
+  | 0 => by simp [servedCount]
+  | j + 1 => by
+    have ih := C31_limiter_repeat k j
+    simp only [List.replicate_succ, servedCount, ite_true, ih, maxSame]
+    split <;> omega
+
+theorem recency_prefix : ∀ (fs older : List ReqKey), fs.Nodup →
+    ∃ rest, recency (fs ++ older) = fs ++ rest
+  | [], older, _ => ⟨recency older, rfl⟩
+  | f :: fs, older, hnd => by
+    obtain ⟨hf, hfs⟩ := List.nodup_cons.mp hnd
+    obtain ⟨rest, hr⟩ := recency_prefix fs older hfs
+    refine ⟨rest.filter (· ≠ f), ?_⟩
+    simp only [List.cons_append, recency, hr, List.filter_append]
+    congr 2
+    apply List.filter_eq_self.mpr
+    intro x hx
+    simpa using (fun h : x = f => hf (h ▸ hx))
+
+/-- eviction by capacity: once 100 other distinct keys were used after it, a key is forgotten
+    (its count starts again at 0), however often it was served before -/
+theorem C31_limiter_evicted (k : ReqKey) (fs older : List ReqKey) (hnd : fs.Nodup)
+    (hlen : fs.length = seenCap) (hk : k ∉ fs) :
+    k ∉ window (fs ++ older) ∧ servedCount (fs ++ older) k = 0 := by
+  obtain ⟨rest, hr⟩ := recency_prefix fs older hnd
+  have hw : window (fs ++ older) = fs := by
+    simp only [window, hr, ← hlen]
+    simp
+  have : k ∉ window (fs ++ older) := by rw [hw]; exact hk
+  exact ⟨this, servedCount_out this⟩
 
 end Gossamer.C31
